@@ -68,7 +68,7 @@ func init() {
 			"'never early' is one-sided: the start instant is read before Play/MultiPlay is called, so machine load can only delay sends, never make the check fire",
 			"sysex events in tracks are not constrained (the statement speaks of channel messages and meta events)",
 		},
-		Require:         []string{"plays", "sends_observed", "same_tick_runs_ge_13", "cross_track_same_tick", "selections_proper_subset", "maps_without_default", "never_early_checks", "play_single_port", "replays_with_rerouted_map", "replays_with_another_map", "late_schedule_plays", "round_gap_plays", "selections_with_repeated_tracks", "long_plays_on_virtual_clock", "slow_ports", "files_with_tempo_curves_over_32_changes", "files_with_tempo_events_in_two_tracks_and_same_tick_pairs", "undecodable_tempo_events"},
+		Require:         []string{"plays", "sends_observed", "same_tick_runs_ge_13", "cross_track_same_tick", "selections_proper_subset", "maps_without_default", "never_early_checks", "play_single_port", "replays_with_rerouted_map", "replays_with_another_map", "late_schedule_plays", "round_gap_plays", "selections_with_repeated_tracks", "long_plays_on_virtual_clock", "slow_ports", "files_with_tempo_curves_over_32_changes", "files_with_tempo_events_in_two_tracks_and_same_tick_pairs", "undecodable_tempo_events", "plays_of_tracks_with_more_than_65536_messages"},
 		FakeTimeWorkers: 2,
 		Workers:         16,
 		Run:             runC12,
@@ -542,6 +542,76 @@ func runC12(c *mon.Ctx) {
 		}
 	}
 	c.Each("files", c.N(300, 30_000), func(i int64, r *mon.Rand) { files(i, r, false) })
+	// one track with more than 65536 (and more than 131072) playable messages, several per tick; other tracks next to it
+	c.EachFT("long-track", c.N(4, 40), func(i int64, r *mon.Rand) {
+		n := r.Pick(70_000, 140_000)
+		perTick := r.Pick(7, 300, 3, 64)
+		longAt := int(i) % 3
+		var tracks [][]ref.EncEv
+		var want [3][][]byte
+		for t := 0; t < 3; t++ {
+			var tr []ref.EncEv
+			if t == 0 {
+				tr = append(tr, ref.EncEv{Ev: ref.Ev{Delta: 0, Msg: ref.Meta(0x51, []byte{0x00, 0x03, 0xE8})}}) // 1000 us per quarter
+			}
+			cnt := 50
+			if t == longAt {
+				cnt = n
+			}
+			for k := 0; k < cnt; k++ {
+				id := k + t*1000
+				m := []byte{0xB0 | byte(id>>14&15), byte(id >> 7 & 127), byte(id & 127)}
+				d := uint32(0)
+				if k%perTick == 0 {
+					d = 1
+				}
+				tr = append(tr, ref.EncEv{Ev: ref.Ev{Delta: d, Msg: m}, RS: k%2 == 1})
+				want[t] = append(want[t], m)
+			}
+			tr = append(tr, ref.EncEv{Ev: ref.Ev{Delta: 0, Msg: ref.EOT}})
+			tracks = append(tracks, tr)
+		}
+		b := (&ref.EncFile{Format: 1, Division: 960, NTracks: -1, Tracks: tracks}).Bytes(nil)
+		in := map[string]any{"file": fmt.Sprintf("3 tracks, track %d has %d controller messages, %d per tick; %d bytes", longAt, n, perTick, len(b))}
+		log := &playLog{}
+		outs := map[int]drivers.Out{0: &fakeOut{id: 1, log: log, open: true}, 1: &fakeOut{id: 2, log: log, open: true}, 2: &fakeOut{id: 3, log: log, open: true}}
+		trd := smf.ReadTracksFrom(bytes.NewReader(b))
+		if trd.Error() != nil {
+			c.Violation("readtracks-error", trd.Error().Error(), in, nil, nil)
+			return
+		}
+		log.t0 = time.Now()
+		var err error
+		if c.Guard("panic:Play", in, func() { err = trd.MultiPlay(outs) }) {
+			return
+		}
+		if err != nil {
+			c.Violation("play-error", err.Error(), in, nil, err.Error())
+			return
+		}
+		c.Count("plays", 1)
+		c.Count("plays_of_tracks_with_more_than_65536_messages", 1)
+		c.Count("sends_observed", int64(len(log.recs)))
+		c.Eval(1)
+		var got [3][][]byte
+		for _, s := range log.recs {
+			got[s.port-1] = append(got[s.port-1], s.data)
+		}
+		for t := 0; t < 3; t++ {
+			if len(got[t]) != len(want[t]) {
+				c.Violation("missing-send", fmt.Sprintf("track %d has %d channel messages, %d were sent to its port", t, len(want[t]), len(got[t])), in, len(want[t]), len(got[t]))
+				return
+			}
+			for k := range want[t] {
+				if !bytes.Equal(got[t][k], want[t][k]) {
+					c.Violation("track-order", fmt.Sprintf("track %d: send %d to its port is % X, event %d of the track is % X (messages of one track leave in file order, also within a tick)", t, k, got[t][k], k, want[t][k]), in, mon.Hex(want[t][k]), mon.Hex(got[t][k]))
+					return
+				}
+			}
+		}
+		c.DistinctBytes([]byte(fmt.Sprint("longtrack", i, n, perTick, longAt)))
+	})
+
 	c.EachFT("long-plays", c.N(300, 20_000), func(i int64, r *mon.Rand) {
 		t0 := time.Now()
 		if t0.Sub(c12Start).Hours() > 120*365*24 {
